@@ -45,7 +45,11 @@ def build(spec):
                 txs.append(Tx(1, [TxIn(rbytes(rng, 32), i, b"", 0xFFFFFFFF) for i in range(cnt)], [cb.out("p2pkh")], 0))
                 txs.append(cb.spend_tx(1, outs=[TxOut(i, b"\x51") for i in range(cnt)]))
         cb.add_block(txs=txs)
-    return cb.chain(), g
+    chain = cb.chain()
+    if spec.get("times"):
+        # real chains step backwards in time, carry equal, future-dated and edge-of-range timestamps: no reason to reject a chain
+        gen.vary_times(rng, chain, keep_first=g, pattern=spec["times"])
+    return chain, g
 
 
 def pruned_case(spec):
@@ -369,6 +373,10 @@ def plan(chk):
         n += 1
         other = "bitcoin" if coin != "bitcoin" else "litecoin"
         specs.append(dict(case="genesis", coin=coin, seed=chk.seed, n=n, foreign_genesis=other))
+    for i, pat in enumerate(["backsteps", "last-before-first", "future", "edges", "constant"] * (3 if chk.thorough else 1)):
+        n += 1
+        specs.append(dict(case="accept", coin=COIN_NAMES[(chk.seed + i) % 8], seed=chk.seed + i, chain="times-%d" % i, n=n, txcounts=[1, 2, 3, 1, 4, 2, 1, 5, 2, 3, 1, 2, 1, 1],
+                          times=pat, starts=[0, 1, 5, 9, 12, 13], ends=[None, 12], callbacks=["csvdump", "unspentcsvdump"] if i % 2 else ["csvdump", "balances"]))
     rounds = [1000, 4096, 10000, 20000, 50000, 65536, 100000, 131072, 210000, 250000, 420000, 500000, 10**6, 2**20, 2**21, 2**22]
     for i, R in enumerate(rounds if chk.thorough else [10000, 65536, 100000] + rng.sample([r for r in rounds if r not in (10000, 65536, 100000)], 4)):
         n += 1
